@@ -68,6 +68,7 @@ class Env:
         self.parent = parent
         self.nval_range = (3, NMAX)
         self.assoc = {}
+        self.named_loops = []   # DO variables of the enclosing named DO constructs (targets of EXIT/CYCLE <name>)
 
     def scalars(self, typ, writable=False):
         out = []
@@ -476,14 +477,19 @@ def gen_do(g, env, depth, nstmts):
         env.active_loops[lv] = (1, 'n')
     else:
         env.active_loops[lv] = (min(vals), max(vals)) if vals else (lo, lo)
-    body = gen_body(g, env, depth + 1, max(1, nstmts - 1), in_loop=True, loop_runs_to_n=use_n)
-    del env.active_loops[lv]
     forms = ['plain', 'plain']
     if g.p.get('labelled'):
         forms.append('label')
     if g.p.get('named'):
         forms.append('named')
-    return ['do', lv, lo_e, hi_e, st_e, body, g.pick(forms)]
+    form = g.pick(forms)
+    if form == 'named':
+        env.named_loops.append(lv)
+    body = gen_body(g, env, depth + 1, max(1, nstmts - 1), in_loop=True, loop_runs_to_n=use_n)
+    if form == 'named':
+        env.named_loops.pop()
+    del env.active_loops[lv]
+    return ['do', lv, lo_e, hi_e, st_e, body, form]
 
 
 def gen_if(g, env, depth, nstmts):
@@ -657,6 +663,9 @@ def gen_stmt(g, env, depth, nstmts, in_loop=False):
         kinds += ['if1']
     if g.p.get('comments'):
         kinds += ['comment']
+    if env.named_loops and g.p.get('named_exit', True) and g.chance(18):
+        # EXIT/CYCLE with the construct name of an enclosing named DO (not necessarily the innermost one)
+        return [['if1', log_expr(g, env, 2), [g.pick(['cycle', 'exit']), ['loop', g.pick(env.named_loops)]]]]
     c = g.pick(kinds)
     r = None
     if c == 'assign':
@@ -682,6 +691,9 @@ def gen_stmt(g, env, depth, nstmts, in_loop=False):
         if a is not None:
             if in_loop and g.chance(15):
                 a = [g.pick(['cycle', 'exit'])]
+                if env.named_loops and g.p.get('named_exit', True) and g.chance(50):
+                    # EXIT/CYCLE with the construct name of an enclosing named DO (not necessarily the innermost)
+                    a.append(['loop', g.pick(env.named_loops)])
             r = ['if1', log_expr(g, env, 2), a]
     elif c == 'comment':
         r = ['comment', g.pick([' plain comment', ' call foo(x)', " it's; a = 1", ' end subroutine', '$ not pragma', ' x = __LINE__'])]
